@@ -14,7 +14,9 @@ CHECKS = {
     'C01': dict(
         cat='exploration', ref='5 C01',
         technique='reference-model monitor on the call boundary (lock-step '
-                  'sorted-map oracle over generated histories)',
+                  'sorted-map oracle over generated histories, plus a '
+                  'systematic workload: every operation in every reachable '
+                  'state of a small key universe)',
         text='Every public call of generated histories (shape-adversarial '
              'keys, node sizes 2..4 and defaults, all 22 families x 4 kinds x '
              'C and Python) is executed in lock-step on the real container '
@@ -22,7 +24,12 @@ CHECKS = {
              'class, ordered contents, len, bool and iteration are compared '
              'after every call.  Held = no divergence on the histories run '
              'and every structural transition listed as must-see was '
-             'observed; universal quantifiers are sampled.',
+             'observed; universal quantifiers are sampled.  In addition '
+             'vmon/explore.py expands, breadth first and until the frontier '
+             'is empty, every distinct state (contents AND internal shape) a '
+             'tree can reach over a universe of 6 (thorough: 7-8) keys at '
+             'node sizes 2-3 and applies every insert / replace / delete / '
+             'pop-smallest / clear in each of them under the same oracle.',
         note='trusted: vmon/model.py (reference map), vmon/walker.py (shape '
              'events); known findings F08, F25, F26 are reported, not '
              'suppressed silently'),
@@ -31,7 +38,8 @@ CHECKS = {
         technique='(a third of the trees stored in MiniDB and swept before '
                   'queries) '
                   'reference-model monitor: near-exhaustive bound grid per '
-                  'container against list slicing',
+                  'container against list slicing; the same grid in every '
+                  'reachable state of a small universe (vmon/explore.py)',
         text='For containers reached by insert/delete histories (thinned '
              'trees, single-child roots, one-key leaves) the range methods, '
              'minKey/maxKey and the lazy sequences (len, +/- index, slices) '
@@ -45,7 +53,9 @@ CHECKS = {
                   'swept between calls) '
                   'structural invariant monitor at quiescent points '
                   '(_check, check(), independent walker after every '
-                  'mutating call)',
+                  'mutating call); systematic workload: every operation in '
+                  'every reachable state of a small universe '
+                  '(vmon/explore.py, frontier exhausted)',
         text='After every mutating call of generated histories on BTree and '
              'TreeSet (node sizes set on the class and via subclass) the '
              "package's own checkers and an independent walker (chain == "
@@ -70,8 +80,11 @@ CHECKS = {
         technique='eviction injection (between calls, inside key '
                   'comparisons, and at the n-th load inside an operation on '
                   'two stored operands, optionally followed by a refused '
-                  'load) + per-call pin monitor + uncached twin; ASan build '
-                  'for the in-comparison and in-load shards',
+                  'load, and between two steps of one iterator / lazy '
+                  'sequence) + per-call pin monitor + uncached twin; a third '
+                  'of the histories under a jar WITHOUT an object cache '
+                  '(minidb.BareJar); ASan build for the in-comparison and '
+                  'in-load shards',
         text='A container stored in MiniDB is compared call by call with an '
              'uncached twin while cache sweeps are injected between calls '
              'and from inside key comparisons, and with deliberately '
@@ -128,7 +141,10 @@ CHECKS = {
                   'swept) '
                   'differential monitor: paired execution of C and Python '
                   'classes with hostile arguments, lazy-view walks, '
-                  'stale-separator trees; shape and pickle comparison',
+                  'stale-separator trees; shape and pickle comparison; '
+                  'systematic workload: both implementations side by side '
+                  'through every operation in every reachable state of a '
+                  'small universe (vmon/explore.py)',
         text='The same generated history, with about a quarter of the '
              'arguments replaced by boundary and wrong-typed data, is '
              'applied to XX<Kind> and XX<Kind>Py; results, exception '
@@ -216,7 +232,11 @@ CHECKS = {
         note='a dead worker counts as a crash of the library'),
     'C16': dict(
         cat='exploration', ref='5 C16, 3.7',
-        technique='valgrind memcheck slice + garbage-cycle collection + '
+        technique='finalizer re-entrancy monitor (__del__ / weakref '
+                  'callbacks of stored objects that look at or change their '
+                  'container inside the releasing operation; ASan build with '
+                  'assert() off) + node census after destruction + '
+                  'valgrind memcheck slice + garbage-cycle collection + '
                   'reference-count ledger at every quiescent point '
                   '(differential ledger over histories, absolute ledger '
                   'over operations between stored operands with in-load '
@@ -228,10 +248,17 @@ CHECKS = {
              'pickling, commit / eviction / reload) the change of '
              'sys.getrefcount of every tracked object must equal the change '
              'of its occurrences in node slots; after destruction every '
-             'object is back at its baseline; the same workload runs under '
-             'ASan.',
+             'object is back at its baseline and no node object of the '
+             'family is left alive; the same workload runs under ASan.  '
+             'Keys and values whose last reference is the container\'s and '
+             'whose finalizer inspects (or removes from / inserts into / '
+             'clears) that container are released through every releasing '
+             'operation (vmon/reentry.py): no crash, no sanitizer report, '
+             'sound container with the implied contents afterwards.',
         note='red-zone ASan misses intra-object overflows and reads of '
-             'uninitialised memory'),
+             'uninitialised memory; known finding F55 (inserting / clearing '
+             'finalizers during __setstate__ on a live leaf or during '
+             'invalidation) is run in sacrificial processes'),
     'C17': dict(
         cat='fault_enumeration', ref='5 C17, 10',
         technique='(also on stored containers whose ghost loads fail, and '
@@ -239,7 +266,8 @@ CHECKS = {
                   'fault enumeration with the guarded allocation hook: fail '
                   'the n-th BTree_Malloc/BTree_Realloc of every allocating '
                   'operation (incl. the in-place operators with stored, '
-                  'evicted operands); ASan build',
+                  'evicted operands, deletes on leaves grown past 32 slots '
+                  'at default node sizes); ASan build',
         text='Using the BTREES_VERIF countdown hook every allocation of '
              'every allocating operation is failed in turn on containers '
              'reached by histories; the call must raise MemoryError (or, '
